@@ -369,8 +369,10 @@ def entries_of(t, vals):
     return [(I(k), v) for (_, k, _), v in zip(fields, vals) if v is not None]
 
 
-def junk_value(g):
+def junk_value(g, floats=True):
     r = g.rng
+    if not floats:       # inside a raw ciborium::Value a float is re-serialised at its shortest width (not modelled)
+        return r.choice([I(0), I(-5), T("v"), B(b"\x00\x01"), A([]), M([]), O(False), NULL, G(0, T("t")), I(1 << 63)])
     return r.choice([I(0), I(-5), T("v"), B(b"\x00\x01"), A([]), A([I(1), A([T("deep")])]), M([]), M([(I(1), I(1)), (I(1), I(2))]),
                      O(False), NULL, G(0, T("2013-03-21T20:04:00Z")), G(2, B(b"\x01" * 9)), I(1 << 63), RAW(b"\xfb\x3f\xf0\x00\x00\x00\x00\x00\x00"),
                      RAW(b"\x9f\x01\x02\xff"), RAW(b"\xbf\x61\x61\x01\xff"), RAW(b"\x5f\x41\x01\x41\x02\xff"), RAW(b"\x7f\x61\x61\xff")])
@@ -542,8 +544,9 @@ def node_variants(g, x):
     elif k == "t":
         out += [("text-as-bytes", B(x[1].encode())), ("text-as-int", I(3)), ("text-tagged", G(3, x))]
     elif k == "a":
-        out += [("array-indefinite", RAW(b"\x9f" + b"".join(enc(y) for y in x[1]) + b"\xff")),
-                ("array-as-map", M([])), ("array-as-null", NULL), ("array-tagged", G(4, x)),
+        if len(x[1]) != 32:      # [u8; 32]: serde's array visitor never reads the break (see Serde.v)
+            out.append(("array-indefinite", RAW(b"\x9f" + b"".join(enc(y) for y in x[1]) + b"\xff")))
+        out += [("array-as-map", M([])), ("array-as-null", NULL), ("array-tagged", G(4, x)),
                 ("array-plus-junk", A(list(x[1]) + [r.choice([I(5), T("lora"), T("cable"), M([]), NULL, B(b"\x01")])]))]
         if all(y[0] == "i" and 0 <= y[1] <= 255 for y in x[1]):
             out.append(("int-array-as-bytes", B(bytes(y[1] for y in x[1]))))
@@ -554,7 +557,8 @@ def node_variants(g, x):
     elif k == "m":
         ents = list(x[1])
         tk = [i for i, (kk, _) in enumerate(ents) if kk[0] == "t"]
-        out += [("map-unknown-text-key", M(ents[:r.randrange(len(ents) + 1)] + [(T(r.choice(["zzz", "", "Type", "ID"])), junk_value(g))] + ents)),
+        pos = r.randrange(len(ents) + 1)
+        out += [("map-unknown-text-key", M(ents[:pos] + [(T(r.choice(["zzz", "", "Type", "ID"])), junk_value(g, floats=False))] + ents[pos:])),
                 ("map-int-key", M(ents + [(I(r.choice([0, 1, 5])), I(0))])), ("map-as-array", A([])), ("map-tagged", G(6, x)),
                 ("map-indefinite", RAW(b"\xbf" + b"".join(enc(a) + enc(b) for a, b in ents) + b"\xff"))]
         if tk:
